@@ -39,7 +39,7 @@ var Check = core.Check{
 const maxCorpusFile = 1 << 20
 
 func bounds(r *core.Run) (T, O, K int) {
-	T = core.Pick(r, 32, 512)
+	T = core.Pick(r, 24, 512)
 	O = T
 	K = core.Pick(r, 1, 3)
 	if s := os.Getenv("C06_BOUND"); s != "" { // dev knob
@@ -49,7 +49,7 @@ func bounds(r *core.Run) (T, O, K int) {
 	return
 }
 
-// cross-format section: truncations of every seed under every format (quick: 8, thorough: 64)
+// cross-format section: truncations of every seed under every format (quick: 4, thorough: 64)
 var crossTrunc = 64
 
 // seedCaps: a seed is decoded, dumped and converted ~2700 times; candidates whose
@@ -91,7 +91,7 @@ func run(r *core.Run) {
 	}
 	w.startWatchdog()
 	T, O, K := bounds(r)
-	crossTrunc = core.Pick(r, 8, 64)
+	crossTrunc = core.Pick(r, 4, 64)
 	formats := formatNames()
 	only := os.Getenv("VERIF_ONLY")
 
@@ -515,7 +515,7 @@ func (w *worker) sentinel() bool {
 // parent: derive the completed grid prefix when the deadline cut the enumeration.
 func parent(r *core.Run) {
 	T, O, _ := bounds(r)
-	crossTrunc = core.Pick(r, 8, 64)
+	crossTrunc = core.Pick(r, 4, 64)
 	grid := Grid(T, O)
 	res := map[string]any{}
 	for _, sec := range []string{"empty", "own", "struct", "cross"} {
